@@ -52,6 +52,11 @@ def check(ctx):
     ctx.attempt(_divisions)
     from .c13 import config_separators       # a valid configuration is never rejected
     ctx.attempt(config_separators, rule='EXC')
+    ctx.attempt(common.total_lookups, _parser_funcs(ctx))
+    from .c05 import every_match_registers
+    ctx.attempt(every_match_registers)
+    from .c13 import decompiled_text_is_typed
+    ctx.attempt(decompiled_text_is_typed, rule='EXC')
     n = common.discarded_results(ctx, _parser_funcs(ctx))
     if n == 0:
         ctx.ok('DISCARD', 'no validated / converted value is computed and dropped (bare-statement calls to pure functions)')
